@@ -50,4 +50,72 @@ pub fn search(tier: &str, seed: u64, s: &mut Search) {
     crate::tree::run_contracts("C07", tier, seed, s, extra);
 }
 
-pub fn corr(_tier: &str, _seed: u64, _c: &mut Corr) {}
+fn xml_escape_source(s: &str) -> String {
+    s.replace('&', "&amp;").replace('<', "&lt;").replace('"', "&quot;").replace('\'', "&apos;")
+}
+
+fn hexs(s: &str) -> String {
+    s.bytes().map(|b| format!("{:02x}", b)).collect()
+}
+
+/// the raw bytes between the quotes of the first `name=` attribute after `after`
+fn raw_attr<'a>(text: &'a str, after: &str, name: &str, quote: char) -> Option<&'a str> {
+    let st = text.find(after)?;
+    let pat = format!(" {}={}", name, quote);
+    let i = text[st..].find(&pat)? + st + pat.len();
+    let j = text[i..].find(quote)? + i;
+    Some(&text[i..j])
+}
+
+/// correspondence: what the real writer puts between the quotes for ids, references, result
+/// names and font families vs the model's `writeAttrValue`
+pub fn corr(tier: &str, seed: u64, c: &mut Corr) {
+    let mut rng = Rng::new(seed ^ 0xC07);
+    let n = if tier == "thorough" { 4000 } else { 400 };
+    let o = crate::corpus::opts_for(None);
+    let alphabet: Vec<char> = "ab&<>\"';#x é_-".chars().collect();
+    for i in 0..n {
+        let len = 1 + rng.below(8) as usize;
+        let mut id: String = (0..len).map(|_| *rng.pick(&alphabet)).collect();
+        // ids are trimmed by nobody, but a leading/trailing blank would be normalised by XML attribute rules only for non-CDATA types: keep them inside
+        if id.starts_with(' ') || id.ends_with(' ') {
+            id = format!("k{}k", id);
+        }
+        if id.contains(')') {
+            continue;
+        }
+        let single = rng.chance(1, 2);
+        let q = if single { '\'' } else { '"' };
+        let qn = if single { "s" } else { "d" };
+        let mut w = usvg::WriteOptions::default();
+        w.use_single_quote = single;
+        let prefix: String = if i % 3 == 0 { (0..rng.below(4)).map(|_| *rng.pick(&alphabet)).collect::<String>().trim().to_string() } else { String::new() };
+        if !prefix.is_empty() {
+            w.id_prefix = Some(prefix.clone());
+        }
+        let src = xml_escape_source(&id);
+        let svg = format!(
+            r##"<svg xmlns="http://www.w3.org/2000/svg" width="50" height="50"><defs><linearGradient id="{src}"><stop offset="0" stop-color="red"/><stop offset="1"/></linearGradient><filter id="f"><feFlood result="{src}"/><feOffset in="{src}"/></filter></defs><rect id="n{src}" width="20" height="20" fill="url(#{src})" filter="url(#f)"/></svg>"##
+        );
+        let Ok(Ok(t)) = crate::pan::catch(|| usvg::Tree::from_str(&svg, &o)) else { continue };
+        let Ok(text) = crate::pan::catch(|| t.to_string(&w)) else { continue };
+        let full = format!("{}{}", prefix, id);
+        // the definition's id, the node's id, the reference, the result name
+        if let Some(raw) = raw_attr(&text, "<linearGradient", "id", q) {
+            c.emit(&format!("escattr {} {}", qn, hexs(&full)), &hexs(raw));
+        }
+        if let Some(raw) = raw_attr(&text, "<path", "id", q) {
+            c.emit(&format!("escattr {} {}", qn, hexs(&format!("{}n{}", prefix, id))), &hexs(raw));
+        }
+        // (an id the parser cannot reference - blanks, quotes … inside url(#…) - falls back to a colour)
+        if let Some(raw) = raw_attr(&text, "<path", "fill", q).filter(|r| r.starts_with("url(")) {
+            c.emit(&format!("escattr {} {}", qn, hexs(&format!("url(#{})", full))), &hexs(raw));
+        }
+        if let Some(raw) = raw_attr(&text, "<feFlood", "result", q) {
+            c.emit(&format!("escattr {} {}", qn, hexs(&id)), &hexs(raw));
+        }
+        if let Some(raw) = raw_attr(&text, "<feOffset", "in", q) {
+            c.emit(&format!("escattr {} {}", qn, hexs(&id)), &hexs(raw));
+        }
+    }
+}
